@@ -842,7 +842,10 @@ func (r *Reader) FetchMessage(ctx context.Context) (Message, error) {
 
 				switch {
 				case m.error != nil:
-				case version == r.version:
+				case m.version == r.version:
+					// the message comes from the current partition reader
+					// (possibly started by a SetOffset made while this call
+					// was waiting): it moves the position
 					r.offset = m.message.Offset + 1
 					r.lag = m.watermark - r.offset
 				}
